@@ -30,7 +30,8 @@ type fInput struct {
 	Kids []fKid `json:"kids"`
 }
 type fCfg struct {
-	Skip bool `json:"skip"`
+	Skip  bool `json:"skip"`
+	Claim bool `json:"claim"`
 }
 
 type aObs struct {
@@ -78,7 +79,7 @@ func genuineRoot() *idp.Response {
 
 func layoutFor(rng *rand.Rand, excOnly bool) idp.Layout {
 	return idp.Layout{Prefix: rng.Intn(4), Pretty: rng.Intn(2) == 0, XMLDecl: rng.Intn(2) == 0, Comments: rng.Intn(3) == 0,
-		TextMode: rng.Intn(4), Shuffle: rng.Intn(2) == 0, CharRefs: rng.Intn(3) == 0, XsiType: rng.Intn(2) == 0, SQuote: rng.Intn(3) == 0}
+		TextMode: rng.Intn(4), Shuffle: rng.Intn(2) == 0, CharRefs: rng.Intn(3) == 0, XsiType: rng.Intn(2) == 0, SQuote: rng.Intn(3) == 0, LeadWS: rng.Intn(4) == 0}
 }
 
 // ownSigned builds content c carrying the IdP's own enveloped signature, made in a
@@ -102,7 +103,7 @@ func ownSigned(b *idp.Builder, w *world.World, spec *idp.Assertion, standalone b
 }
 
 // BuildForgery assembles the concrete document for an abstract input.
-func BuildForgery(in *fInput, seed int64) (doc []byte, lay idp.Layout) {
+func BuildForgery(in *fInput, seed int64, claim bool) (doc []byte, lay idp.Layout) {
 	w := world.Get()
 	rng := rand.New(rand.NewSource(seed))
 	lay = layoutFor(rng, true)
@@ -172,6 +173,9 @@ func BuildForgery(in *fInput, seed int64) (doc []byte, lay idp.Layout) {
 			}
 			node = ee
 		}
+		if claim && k.Sig != "own" && !k.Enc {
+			el.CreateAttr("SignatureValidated", "true")
+		}
 		switch k.Place {
 		case "direct":
 			root.AddChild(node)
@@ -192,6 +196,9 @@ func BuildForgery(in *fInput, seed int64) (doc []byte, lay idp.Layout) {
 		if _, err := idp.Sign(p.el, p.opt); err != nil {
 			panic(err)
 		}
+	}
+	if claim && in.Rsig != "gen" && !(in.Rsig == "lifted" && isGR0) {
+		root.CreateAttr("SignatureValidated", "true")
 	}
 	switch in.Rsig {
 	case "att":
@@ -339,7 +346,8 @@ func (Forgery) Run(c *orch.Case) *orch.Outcome {
 	if err := json.Unmarshal(c.Input, &in); err != nil {
 		orch.Fatal("forgery input: %v", err)
 	}
-	doc, lay := BuildForgery(&in, c.Seed)
+	claim := c.Seed%2 == 1
+	doc, lay := BuildForgery(&in, c.Seed, claim)
 	deflate := c.Seed%3 == 0
 	enc := idp.Encode(doc, deflate)
 	w := world.Get()
@@ -347,7 +355,7 @@ func (Forgery) Run(c *orch.Case) *orch.Outcome {
 	sp.SkipSignatureValidation = cfg.Skip
 	o := observeSSO(sp, enc)
 	return &orch.Outcome{Obs: o, Trivial: false,
-		Replay: map[string]any{"encoded_response": enc, "deflate": deflate, "layout": lay, "sp": describeSP(sp), "document": string(doc)}}
+		Replay: map[string]any{"encoded_response": enc, "deflate": deflate, "layout": lay, "sp": describeSP(sp), "document": string(doc), "claims_signaturevalidated_attribute": claim}}
 }
 
 func (Forgery) Extra(tier string, seed int64) []orch.Case { return nil }
